@@ -7,7 +7,7 @@ import (
 	"verif/vkit"
 )
 
-var coll = vkit.NewCollector("C05", "TestPanics", "1-8 handlers of every kind/option combination (plain/context-aware x Once x Async x Sequential) at drawn positions, each panicking never / always / on a chosen event with a string, error, int or struct value; bus with or without a panic handler (instant or taking 0.1-3 ms, a slow reporter) and with drawn ambient configuration (observability, publish hooks, a store) that must not change the outcome; 1-5 publishes then Wait, under a real-time watchdog. Oracle = model: Publish returns, every expected invocation happened (sync order exact), panic handler called exactly once per panic with the event, a func type whose last parameter is the event type (1 or 2 parameters by kind) and the value; Sequential handlers run again, panicking Once handlers stay retired, Wait returns. Non-trivial = a panicking handler that is not last or is Sequential/Once/Async, followed by a further publish.")
+var coll = vkit.NewCollector("C05", "TestPanics", "1-8 handlers of every kind/option combination (plain/context-aware x Once x Async x Sequential) at drawn positions, each panicking never / always / on a chosen event with a string, error, int or struct value, or one that cannot describe itself (a typed nil pointer whose Error method dereferences it, a Stringer that panics); bus with or without a panic handler (instant or taking 0.1-3 ms, a slow reporter) and with drawn ambient configuration (observability, publish hooks, a store) that must not change the outcome; 1-5 publishes then Wait, under a real-time watchdog. Oracle = model: Publish returns, every expected invocation happened (sync order exact), panic handler called exactly once per panic with the event, a func type whose last parameter is the event type (1 or 2 parameters by kind) and the value; Sequential handlers run again, panicking Once handlers stay retired, Wait returns. Non-trivial = a panicking handler that is not last or is Sequential/Once/Async, followed by a further publish.")
 
 func TestMain(m *testing.M) { vkit.Main(m) }
 
